@@ -173,4 +173,13 @@ client of such a configuration asks for `sasl` as soon as the server advertises 
 theorem sasl_switches_negotiation_on (cfg : Config) (h : cfg.sasl.isSome) : (clientConfig cfg).capNeg = true := by
   simp [clientConfig, h]
 
+/-- **a refused request changes nothing**: whatever a CAP NAK names - capabilities that are enabled, a `-cap`, unknown ones -
+the client is exactly as it was: what it holds is still what the latest acknowledgement said, what the server supports
+still what it advertised (and `ends_after_nak`: the reply is CAP END) -/
+theorem nak_changes_nothing (c : Client) (l : Line) (h1 : l.args[1]? = some CAP_NAK) :
+    (h_CAP c l).c = c ∧ (h_CAP c l).panicked = false := by
+  have e1 : (CAP_NAK == CAP_LS) = false := by decide
+  have e2 : (CAP_NAK == CAP_ACK) = false := by decide
+  simp [h_CAP, handleCapNak, arg, h1, e1, e2]
+
 end Props.C19
